@@ -50,11 +50,11 @@ ASSUMPTIONS = ["exact regime only: dyadic corners and cells, subregions on cell 
                "field written and read (op inv); the spec comparison is made where they hold",
                "the component-to-axis mapping is not stored in the file and not in the property's list: a custom mapping comes "
                "back as the default one (tag observation:custom-vdim_mapping-not-restored), model and code agree on that"]
-UNPROVED = ["legacy_read is FALSE of the code as it stands (every legacy file is rejected: finding D21); proved instead: "
+UNPROVED = ["legacy_read is FALSE of the code as it stands (every legacy file is rejected: finding D31); proved instead: "
             "legacy_rejected (the code) and legacy_read_doc (the documented reader, nvdim=dim)",
-            "h5_roundtrip_partial excludes the unit string 'None' (false of the code: unit_None_is_lost, finding D22)",
+            "h5_roundtrip_partial excludes the unit string 'None' (false of the code: unit_None_is_lost, finding D32)",
             "int64 -> float64 conversion on reading is exact in the rational model; beyond 2^53 it is not in binary64 "
-            "(finding D23): oracle only"]
+            "(finding D33): oracle only"]
 BUDGET = {"quick": 75, "thorough": 700}
 
 DIMNAMES = ["x", "y", "z", "a", "b", "c", "u", "v", "w", "t", "ξ", "len", "x0", "r_1"]
@@ -87,8 +87,9 @@ def gen_rt(rng, nmax=5, max_cells=96, force=None):
     rkind = force.get("rkind") or rng.choice(["i", "f"])
     skind = force.get("skind") or rng.choice(["i", "f"])
     n, cell, pmin = [], [], []
+    intgrid = rkind == "i" or (skind == "i" and rng.random() < 0.85)   # integer vertices exist
     for _ in range(ndim):
-        if rkind == "i":
+        if intgrid:
             # integer corners: cell = odd / 2^k, count a multiple of 2^k, integer origin
             k = rng.randint(0, 2)
             c = Fraction(rng.choice([1, 1, 3]), 2 ** k)
@@ -101,7 +102,7 @@ def gen_rt(rng, nmax=5, max_cells=96, force=None):
         n.append(nn), cell.append(c), pmin.append(pm)
     while int(np.prod(n)) > max_cells:
         a = max(range(ndim), key=lambda i: n[i])
-        if rkind == "i":
+        if intgrid:
             cell[a] = Fraction(cell[a].numerator)
             n[a] = 1 if n[a] <= 2 else 2
         else:
@@ -1051,12 +1052,12 @@ def nontrivial(case, obs):
 
 def known(case, text):
     if case["kind"] == "legacy" and text.startswith("legacy-layout file rejected: TypeError: 'nvdim' must be of type int"):
-        return "D21"
+        return "D31"
     if case["kind"] == "rt" and case.get("unit") == "None" and text.startswith("unit changed: 'None' -> None"):
-        return "D22"
+        return "D32"
     if case["kind"] == "rt" and case.get("dtype") in ("i8",) and case.get("bigint") and (
             text.startswith("integer values changed") or ".array: values differ" in text):
-        return "D23"   # binary64 cannot hold the integer; the rational model can
+        return "D33"   # binary64 cannot hold the integer; the rational model can
     return None
 
 
